@@ -22,7 +22,7 @@ RULE = ("BFS over histories of {resource writes 1 byte / the rest, resource fini
         "directly or by a push producer that honours pause/resume, both service orders of the priority stand-in). After every transition: every "
         "DATA frame the server wrote fits the harness ledger of the stream and connection windows, is the next slice of the expected body, and "
         "the h2 client accepts the bytes. In every new canonical state a fair completion is run on the real objects: the client opens the "
-        "windows (by WINDOW_UPDATE, and - when something is blocked - separately by SETTINGS), the loop runs to quiescence: all bytes written so "
+        "windows (by WINDOW_UPDATE, and - when something is blocked - separately by SETTINGS alone / by a connection WINDOW_UPDATE alone where that suffices), the loop runs to quiescence: all bytes written so "
         "far must arrive and paused producers must be resumed; then the resources finish and every body must arrive complete, in order, ended. "
         "non-trivial = distinct canonical states in which a stream was blocked on flow control (queued data the window does not admit, a paused "
         "producer, or a window <= 0)")
@@ -39,6 +39,8 @@ ASSUMPTIONS = [
     "ledger exact); server-to-client delivery is an explicit event",
     "one 'tick' = one reactor iteration: delayed calls scheduled during the iteration run in the next one (ReactorBase.runUntilCurrent semantics)",
     "a connection window below 65535 is produced honestly by a prelude stream that consumes 65535-c bytes which the client never acknowledges",
+    "h2 quirk: the h2 client rejects an *empty* DATA frame while its own SETTINGS have made its receive window negative "
+    "(window_consumed(0)); such a frame is legal (RFC 7540 6.9.1), so in exactly that situation the harness books the frame itself",
     "canonical state = harness ledger (windows, bytes written/sent/received, flags, counters), decoded undelivered frames, and - for merging "
     "only - the server's queues, priority flags, parked/scheduled loop and h2 windows read defensively",
     "transport back-pressure on the H2Connection (pauseProducing from the TCP transport) and RST_STREAM are outside the statement and not in the alphabet",
@@ -52,6 +54,8 @@ HDRS = [(b":method", b"GET"), (b":path", b"/"), (b":scheme", b"https"), (b":auth
 LOOP_LIMIT = 80
 
 _mods = {}
+_cur = [None]     # the St whose action is being executed (for the log observer)
+_stray = []       # logged failures that could not be attributed
 
 
 def _T():
@@ -96,6 +100,21 @@ def _T():
                 if data:
                     self._c29.server_wrote(bytes(data))
 
+        # failures that end up in a Deferred nobody looks at (the send loop also runs as a Deferred callback) are reported
+        # through twisted.logger when the Deferred is released; attribute them to the state whose action is running
+        from twisted.logger import globalLogBeginner
+
+        def observer(event):
+            f = event.get("log_failure")
+            if f is None:
+                return
+            cur = _cur[0]
+            if cur is None:
+                _stray.append(f.type.__name__)
+            else:
+                cur.logged_failure(f)
+
+        globalLogBeginner.beginLoggingTo([observer], redirectStandardIO=False, discardBuffer=True)
         _mods.update(h2=h2, Clock=IterClock, http=http, _http2=_http2, HReq=HReq, Wire=Wire,
                      IWS=h2.settings.SettingCodes.INITIAL_WINDOW_SIZE)
     return _mods
@@ -133,6 +152,7 @@ class Rec:
         self.cl_ended = False
         self.cl_headers = False
         self.wu = 0                 # stream WINDOW_UPDATE total sent by the client
+        self.wrote_closed = False   # unsent bytes were written while the ledger window was <= 0
 
 
 class St:
@@ -149,12 +169,14 @@ class St:
         self.loop_exc_neg = False
         self.recv_exc = None
         self.write_exc = None
+        self.other_failures = []
         self.goaway = False
         self.reset = set()
         self.n_wu = self.n_set = 0
         self.buf = bytearray()      # undecoded server output
         self.wire = bytearray()     # undelivered server output (whole frames)
         self.wire_frames = []
+        self.wire_raw = []
         self.ref_conn = CONN0       # ledger: what the server may still send on the connection
         self.ref_win = {}           # ledger per stream id
         self.srv_iws = CONN0        # INITIAL_WINDOW_SIZE the server has been told
@@ -164,6 +186,7 @@ class St:
         self.reqs = {}
         self.by_sid = {}
         self.s = []
+        _cur[0] = self
         self.clock = m["Clock"]()
         srv = self.srv = m["_http2"].H2Connection(reactor=self.clock)
         srv.callLater = self.clock.callLater          # TimeoutMixin seam: never the global reactor
@@ -208,8 +231,31 @@ class St:
             nxt += 2
         self.n_wu = self.n_set = 0
         self.flags.clear()
-        if self.bad or self.dead:
+        if self.bad or self.dead or self.loop_exc:
             raise RuntimeError("setup failed: %r" % (self.bad,))
+        _cur[0] = None
+
+    def logged_failure(self, f):
+        self.other_failures.append(f.type.__name__)     # a hint for the detail text only
+
+    def _watch(self, fn):
+        """The send loop also runs as the callback of the Deferred it parks on; an exception there ends up in that
+        Deferred instead of propagating.  Look at the Deferred the loop was parked on (private, read defensively, used
+        only to name the failure - the verdict comes from the completion run) and consume its failure."""
+        from twisted.python.failure import Failure
+        d0 = getattr(self.srv, "_sendingDeferred", None)
+        fn()
+        if d0 is not None and getattr(self.srv, "_sendingDeferred", None) is not d0:
+            res = getattr(d0, "result", None)
+            if isinstance(res, Failure):
+                self._loop_raised(res.value)
+                d0.addErrback(lambda f: None)
+
+    def _loop_raised(self, e):
+        if self.loop_exc is None:
+            self.loop_exc = type(e).__name__
+            self.loop_exc_neg = any(self.ref_win[r.sid] < 0 for r in self.s if r.sid not in self.srv_ended)
+            self.loop_exc_detail = str(e)
 
     # ---- server side hooks
     def request_arrived(self, req):
@@ -232,6 +278,7 @@ class St:
             sid = int.from_bytes(buf[5:9], "big") & 0x7FFFFFFF
             payload = bytes(buf[9:9 + ln])
             self.wire += buf[:9 + ln]
+            self.wire_raw.append(bytes(buf[:9 + ln]))
             del buf[:9 + ln]
             self.wire_frames.append((typ, fl, sid, None if typ == 1 else payload))
             if typ == 0:
@@ -262,6 +309,8 @@ class St:
         r = self.by_sid.get(sid)
         if r is not None:
             r.sent += payload
+            if len(r.sent) >= r.written:
+                r.wrote_closed = False
             if bytes(r.sent) != r.body[:len(r.sent)] or len(r.sent) > r.written:
                 self.bad.append(("H2Connection:DATA-not-the-next-slice-of-the-body",
                                  "stream %d: server has sent %r, resource wrote %r" % (sid, bytes(r.sent), r.body[:r.written])))
@@ -282,7 +331,7 @@ class St:
         if not data or self.dead:
             return
         try:
-            self.srv.dataReceived(data)
+            self._watch(lambda: self.srv.dataReceived(data))
         except Exception as e:  # a real transport logs this and drops the connection
             self.recv_exc = "%s: %s" % (type(e).__name__, e)
             self.dead = True
@@ -292,16 +341,39 @@ class St:
             return
         m = _T()
         h2 = m["h2"]
-        data = bytes(self.wire)
+        frames = list(zip(self.wire_frames, self.wire_raw))
         del self.wire[:]
         del self.wire_frames[:]
-        try:
-            events = self.cl.receive_data(data)
-        except h2.exceptions.ProtocolError as e:
-            self.bad.append(("H2Connection:client-rejected-server-bytes:%s" % type(e).__name__, str(e)))
-            self.dead = True
-            return
-        ev = h2.events
+        del self.wire_raw[:]
+        for (typ, fl, sid, payload), raw in frames:
+            if typ == 0 and len(raw) == 9 and sid in self.by_sid:
+                # h2 quirk (trusted base): WindowManager.window_consumed(0) raises when the client's own SETTINGS made its
+                # receive window negative, although an empty DATA frame is legal at any window (RFC 7540 6.9.1/6.9.2).
+                # In exactly that situation the harness books the empty frame itself.
+                try:
+                    neg = self.cl.remote_flow_control_window(sid) < 0
+                except Exception:
+                    neg = False
+                if neg:
+                    self.flags.add("empty-DATA-at-negative-client-window")
+                    if fl & 0x1:
+                        r = self.by_sid[sid]
+                        r.cl_ended = True
+                        if bytes(r.got) != r.body:
+                            self.bad.append(("H2Connection:client-saw-END_STREAM-before-body-complete",
+                                             "stream %d: got %r of %r" % (sid, bytes(r.got), r.body)))
+                    continue
+            try:
+                self._client_events(self.cl.receive_data(raw))
+            except h2.exceptions.ProtocolError as e:
+                self.bad.append(("H2Connection:client-rejected-server-bytes:%s" % type(e).__name__,
+                                 "%s (frame type %d flags %d stream %d length %d)" % (e, typ, fl, sid, len(raw) - 9)))
+                self.dead = True
+                return
+        self.to_server()
+
+    def _client_events(self, events):
+        ev = _T()["h2"].events
         for e in events:
             if isinstance(e, ev.DataReceived):
                 r = self.by_sid.get(e.stream_id)
@@ -357,10 +429,7 @@ class St:
         try:
             self.clock.iterate()
         except Exception as e:  # a real reactor logs an exception from a delayed call and carries on
-            if self.loop_exc is None:
-                self.loop_exc = type(e).__name__
-                self.loop_exc_neg = any(self.ref_win[r.sid] < 0 for r in self.s if r.sid not in self.srv_ended)
-                self.loop_exc_detail = str(e)
+            self._loop_raised(e)
 
     def run_quiet(self, limit=LOOP_LIMIT):
         n = 0
@@ -373,18 +442,22 @@ class St:
     def write(self, r, n):
         data = r.body[r.written:r.written + n]
         r.written += len(data)
+        if data and min(self.ref_win[r.sid], self.ref_conn) <= 0:
+            r.wrote_closed = True
         try:
-            r.req.write(data)
+            self._watch(lambda: r.req.write(data))
         except Exception as e:
             if self.write_exc is None:
                 self.write_exc = "write: %s: %s" % (type(e).__name__, e)
 
     def finish(self, r):
         r.finished = True
-        try:
+        def fin():
             if r.prod is not None:
                 r.req.unregisterProducer()
             r.req.finish()
+        try:
+            self._watch(fin)
         except Exception as e:
             if self.write_exc is None:
                 self.write_exc = "finish: %s: %s" % (type(e).__name__, e)
@@ -412,7 +485,7 @@ def set_values(w):
     return out
 
 
-def enabled(st, wu_max=2, set_max=2, cf_max=4):
+def enabled(st, wu_max=2, set_max=2, cf_max=4, whole=False):
     if st.dead:
         return []
     if st.n_wu + st.n_set >= cf_max:
@@ -421,7 +494,8 @@ def enabled(st, wu_max=2, set_max=2, cf_max=4):
     for i, r in enumerate(st.s):
         if st.can_write(r):
             rest = r.size - r.written
-            evs.append(("w", i, 1))
+            if not whole or rest == 1:
+                evs.append(("w", i, 1))
             if rest > 1:
                 evs.append(("w", i, rest))
         if st.can_finish(r):
@@ -446,6 +520,14 @@ def enabled(st, wu_max=2, set_max=2, cf_max=4):
 
 
 def apply(st, ev):
+    _cur[0] = st
+    try:
+        _apply(st, ev)
+    finally:
+        _cur[0] = None
+
+
+def _apply(st, ev):
     op = ev[0]
     if op == "w":
         st.write(st.s[ev[1]], ev[2])
@@ -477,15 +559,27 @@ def closure(st, mode):
     window with WINDOW_UPDATE; mode 'set': the stream windows are opened by SETTINGS INITIAL_WINDOW_SIZE alone."""
     if st.dead:
         return []
-    how = "WINDOW_UPDATE" if mode == "wu" else "SETTINGS-window-increase"
+    _cur[0] = st
+    try:
+        return _closure(st, mode)
+    finally:
+        _cur[0] = None
+
+
+def _closure(st, mode):
+    how = {"wu": "WINDOW_UPDATE", "conn": "WINDOW_UPDATE", "set": "SETTINGS-window-increase"}[mode]
     todo = sum(r.size - len(r.sent) for r in st.s)
     if mode == "wu":
-        st.client_wu(0, BIG)
+        # connection window only if it is (or will be) binding, so that the stream branch of _handleWindowUpdate is on its own
+        if st.ref_conn <= todo:
+            st.client_wu(0, BIG)
         for r in st.s:
             if not r.cl_ended:
                 st.client_wu(r.sid, BIG)
+    elif mode == "conn":
+        st.client_wu(0, BIG)
     else:
-        if st.ref_conn < todo:
+        if st.ref_conn <= todo:
             st.client_wu(0, BIG)
         st.client_set(BIG)
     st.run_quiet()
@@ -495,7 +589,7 @@ def closure(st, mode):
         out.append(("H2Connection:dataReceived-raised:%s" % st.recv_exc.split(":")[0], st.recv_exc))
     if out:
         return out
-    hints = "loop_exc=%r write_exc=%r goaway=%r reset=%r" % (st.loop_exc, st.write_exc, st.goaway, sorted(st.reset))
+    hints = "loop_exc=%r write_exc=%r other=%r goaway=%r reset=%r" % (st.loop_exc, st.write_exc, st.other_failures, st.goaway, sorted(st.reset))
     # phase 1: what was blocked has resumed
     for r in st.s:
         unsent = r.written > len(r.got)
@@ -506,6 +600,8 @@ def closure(st, mode):
             sig = _loop_sig(st)
         elif mode == "set":
             sig = "H2Connection:stream-blocked-on-flow-control-not-resumed-after-SETTINGS-window-increase"
+        elif unsent and r.wrote_closed:
+            sig = "H2Connection:data-written-at-closed-window-not-sent-after-WINDOW_UPDATE"
         elif unsent:
             sig = "H2Connection:queued-data-not-sent-after-WINDOW_UPDATE"
         else:
@@ -539,7 +635,7 @@ def closure(st, mode):
         out.append(("H2Connection:dataReceived-raised:%s" % st.recv_exc.split(":")[0], st.recv_exc))
     if out:
         return out
-    hints = "loop_exc=%r write_exc=%r goaway=%r reset=%r" % (st.loop_exc, st.write_exc, st.goaway, sorted(st.reset))
+    hints = "loop_exc=%r write_exc=%r other=%r goaway=%r reset=%r" % (st.loop_exc, st.write_exc, st.other_failures, st.goaway, sorted(st.reset))
     for r in st.s:
         if r.cl_ended and bytes(r.got) == r.body:
             continue
@@ -552,6 +648,12 @@ def closure(st, mode):
         out.append((sig, "stream %d (%s): client has %r of %r, END_STREAM seen=%r, server sent %r, finished=%r; %s" % (
             r.sid, r.mode, bytes(r.got), r.body, r.cl_ended, bytes(r.sent), r.finished, hints)))
     return out
+
+
+def conn_only(st):
+    """only the connection window stands in the way: the connection branch of _handleWindowUpdate is on its own"""
+    todo = sum(r.size - len(r.sent) for r in st.s)
+    return st.ref_conn <= todo and all(st.ref_win[r.sid] > r.size - len(r.sent) for r in st.s if r.sid not in st.srv_ended)
 
 
 def invariant(st, hist):
@@ -638,8 +740,8 @@ def shards(tier, seed):
 
 def params(tier, nstreams):
     if tier == "quick":
-        return {"depth": 7 if nstreams == 1 else 6, "wu_max": 2, "set_max": 2}
-    return {"depth": 9 if nstreams == 1 else 7, "wu_max": 3, "set_max": 2}
+        return {"depth": 6 if nstreams == 1 else 4, "wu_max": 2, "set_max": 2, "cf_max": 2, "whole": nstreams == 2}
+    return {"depth": 8 if nstreams == 1 else 6, "wu_max": 3, "set_max": 2, "cf_max": 3, "whole": nstreams == 2}
 
 
 def run_shard(shard, tier, seed):
@@ -649,7 +751,7 @@ def run_shard(shard, tier, seed):
     stats = Stats()
 
     def en(st):
-        return enabled(st, p["wu_max"], p["set_max"], p["cf_max"])
+        return enabled(st, p["wu_max"], p["set_max"], p["cf_max"], p["whole"])
 
     def judge(st, hist, mode):
         stats.count("closures")
@@ -688,6 +790,9 @@ def run_shard(shard, tier, seed):
             stats.outcome("all-bodies-complete")
         if blocked:
             judge(build(cfg, hist), hist, "set")
+            if conn_only(st):
+                stats.outcome("only-connection-window-blocks")
+                judge(build(cfg, hist), hist, "conn")
         judge(st, hist, "wu")      # destroys st; bfs rebuilds before it expands
 
     res = bfs(lambda: St(cfg), apply, en, canon, invariant, p["depth"], max_violations=10 ** 6, on_state=on_state)
